@@ -4,4 +4,4 @@ From DivanV Require Import Base.Res Base.ExtractPrelude Model.Painter Model.Driv
 Extraction Language OCaml.
 Set Extraction KeepSingleton.
 Extraction "model.ml" extraction_prelude
-  paint paint_ops invokes parse skeleton paint_sb lines classify mkRun mkCells.
+  paint paint_ops invokes all_calls parse skeleton paint_sb lines classify mkRun mkCells.
